@@ -73,7 +73,7 @@ def load_known():
         return json.load(f)
 
 
-def finish(pid, tier, seed, obligations, infos, t0, explanation, trusted_base, extra=None, level="other"):
+def finish(pid, tier, seed, obligations, infos, t0, explanation, trusted_base, extra=None, level="other", evidence_dir=None):
     """Write evidence, print protocol lines, return exit code."""
     known = load_known()
     known_keys = {}
@@ -142,8 +142,10 @@ def finish(pid, tier, seed, obligations, infos, t0, explanation, trusted_base, e
         "wall_s": round(time.time() - t0, 2),
         "violations": len(unlisted),
     }
-    os.makedirs(os.path.join(VERIF, "evidence"), exist_ok=True)
-    with open(os.path.join(VERIF, "evidence", pid + ".json"), "w") as f:
+    # evidence under /verif/evidence describes /repo itself; runs against another tree (--repo: self-tests, scratch worktrees) write elsewhere
+    evdir = evidence_dir or os.path.join(VERIF, "evidence")
+    os.makedirs(evdir, exist_ok=True)
+    with open(os.path.join(evdir, pid + ".json"), "w") as f:
         json.dump(ev, f, indent=1, sort_keys=True)
         f.write("\n")
     for o in listed:
